@@ -11,7 +11,8 @@ import z3
 
 from pyvc.api import A, FnSpec, LoopSpec
 from pyvc.containers import INT, STR, ClassDecl, SMap, SObj, SRef, SSeq, SSet, TRef, TSetT, TTuple
-from pyvc.values import SBool, SStr, STuple, SVal, Unsupported, fresh_name
+from pyvc.engine import SClass
+from pyvc.values import SBool, SInt, SStr, STuple, SVal, Unsupported, fresh_name
 
 from . import toc
 from .toc import RT, Ref
@@ -101,7 +102,7 @@ SCHEMAS_PATH = "<METADOR_SCHEMAS_PATH>"
 
 class MStub(SVal):
     def py_getattr(self, cx, name):
-        return {"METADOR_PACKAGES_PATH": PKGS_PATH, "METADOR_SCHEMAS_PATH": SCHEMAS_PATH}[name]
+        return {"METADOR_PACKAGES_PATH": PKGS_PATH, "METADOR_SCHEMAS_PATH": SCHEMAS_PATH, "METADOR_LINKS_PATH": "<METADOR_LINKS_PATH>"}[name]
 
 
 def is_empty_map(m):
@@ -689,14 +690,241 @@ def OTHER_USE(st, r):
     return ch(st, r)
 
 
+# ---- TOCLinks.register / unregister / update (C06) ------------------------------------------------------
+
+LINKS_PATH = "<METADOR_LINKS_PATH>"
+UU = z3.DeclareSort("UUID")
+UUID_STR = z3.Function("str_of_uuid", UU, S_)
+PARENT_PATH = z3.Function("h5_parent_path", S_, S_)
+N_CHILDREN = z3.Function("number_of_children_at_entry", S_, z3.IntSort())
+LAST_SEG = z3.Function("last_path_segment", S_, S_)
+REF_FOR_EP = z3.Function("schema_ref_for_ep_name", S_, Ref)  # _schema_ref_for (C16 codec: inverse of the ep name)
+
+
+class TUuid:
+    def sort(self):
+        return UU
+
+    def wrap(self, t):
+        return UuidV(t)
+
+    def unwrap(self, cx, v):
+        if isinstance(v, UuidV):
+            return v.t
+        raise Unsupported("not a uuid")
+
+
+class UuidV(SVal):
+    def __init__(self, t):
+        self.t = t
+
+    def py_str(self, cx):
+        return SStr(UUID_STR(self.t))
+
+
+class LinksRaw(SVal):
+    """raw container as TOCLinks sees it: writes/deletes are logged; group sizes are entry sizes minus what this call deleted below them"""
+
+    def __init__(self):
+        self.deleted = []
+
+    def py_setitem(self, cx, k, v):
+        cx.effect("raw-set", k.t if isinstance(k, SStr) else z3.StringVal(k), v)
+
+    def py_delitem(self, cx, k):
+        kt = k.t if isinstance(k, SStr) else z3.StringVal(k)
+        cx.effect("raw-del", kt)
+        self.deleted.append(kt)
+
+    def py_getitem(self, cx, k):
+        return RawNodeAt(self, k.t if isinstance(k, SStr) else z3.StringVal(k))
+
+
+class RawNodeAt(SVal):
+    def __init__(self, raw, path_t):
+        self.raw, self.path_t = raw, path_t
+
+    def py_getattr(self, cx, name):
+        if name == "parent":
+            return RawNodeAt(self.raw, PARENT_PATH(self.path_t))
+        if name == "name":
+            return PathStr(self.path_t)
+        raise Unsupported("raw node attribute " + name)
+
+    def py_isinstance(self, cx, c):
+        return c == "H5GroupLike"
+
+    def _count(self):
+        n = N_CHILDREN(self.path_t)
+        for d in self.raw.deleted:
+            n = n - z3.If(PARENT_PATH(d) == self.path_t, 1, 0)
+        return n
+
+    def py_len(self, cx):
+        return SInt(self._count())
+
+    def meth_keys(self, cx):
+        return self
+
+
+class PathStr(SStr):
+    def meth_split(self, cx, sep):
+        if sep != "/":
+            raise Unsupported("split by something else")
+        return SegsOf(self.t)
+
+
+class SegsOf(SVal):
+    def __init__(self, t):
+        self.t = t
+
+    def py_getitem(self, cx, i):
+        if i != -1:
+            raise Unsupported("only the last segment is used")
+        return SStr(LAST_SEG(self.t))
+
+
+def links_obj(cx):
+    o = SObj("TOCLinks", name="self")
+    o.fields["_raw"] = LinksRaw()
+    o.fields["_toc_path"] = SMap.fresh(TUuid(), STR, "toc_path")
+    ts = SObj("TocSchemasStub", name="toc_schemas")
+    o.fields["_toc_schemas"] = ts
+    return o
+
+
+class LinksRegister(FnSpec):
+    file = "container/interface.py"
+    qual = "TOCLinks.register"
+    props = ("C06",)
+
+    def init(self):
+        self.bindings["M"] = MStub()
+        self.bindings["_ep_name_for"] = lambda cx, r: SStr(EPN(REF_NAME(r.t), REF_VER(r.t)))
+        self.inline |= {"TOCLinks._link_path_for"}
+
+    def setup(self, cx):
+        o = links_obj(cx)
+        st = SObj("StoredObj", name="obj")
+        st.fields["schema"] = SRef("SchemaRef", z3.Const("obj_schema", Ref))
+        st.fields["uuid"] = UuidV(z3.Const("obj_uuid", UU))
+        node = SObj("StoredNode", name="node")
+        node.fields["name"] = SStr(z3.String("obj_node_path"))
+        st.fields["node"] = node
+        a = A(self=o, obj=st)
+        a.tp0 = o.fields["_toc_path"].snapshot()
+        return a
+
+    def ensures(self, cx, a, res):
+        o = a.self
+        tp = o.fields["_toc_path"]
+        r, u = a.obj.fields["schema"].t, a.obj.fields["uuid"].t
+        path = z3.Concat(z3.StringVal(LINKS_PATH), z3.StringVal("/"), EPN(REF_NAME(r), REF_VER(r)), z3.StringVal("/"), UUID_STR(u))
+        fx = cx.fx
+        ok = [e[0] for e in fx] == ["schemas-register", "raw-set"]
+        k = z3.Const(fresh_name("uk"), UU)
+        out = [("protocol", z3.BoolVal(ok), "the schema is registered as used first, then exactly one link is written")]
+        if ok:
+            out.append(("schema-of-the-object-registered", fx[0][1].t == r, "the object's schema gets its schema/package records"))
+            out.append(("link-written", z3.And(fx[1][1] == path, same_str(fx[1][2], a.obj.fields["node"].fields["name"].t)), "the link <links>/<schema__version>/<uuid> holds the path of the metadata object"))
+        out.append(("link-table-updated", z3.ForAll([k], z3.And(tp.has(k) == z3.Or(a.tp0.has(k), k == u), tp.get_term(k) == z3.If(k == u, path, a.tp0.get_term(k)))), "the UUID now resolves to exactly this link; all others are untouched"))
+        return out
+
+
+class LinksUnregister(FnSpec):
+    file = "container/interface.py"
+    qual = "TOCLinks.unregister"
+    props = ("C06",)
+
+    def init(self):
+        self.bindings["M"] = MStub()
+        self.bindings["H5GroupLike"] = SClass("H5GroupLike")
+        self.bindings["_schema_ref_for"] = lambda cx, ep: SRef("SchemaRef", REF_FOR_EP(ep.t))
+
+    def setup(self, cx):
+        o = links_obj(cx)
+        a = A(self=o, uuid=UuidV(z3.Const("uuid", UU)))
+        a.tp0 = o.fields["_toc_path"].snapshot()
+        return a
+
+    def requires(self, cx, a):
+        tp = a.tp0
+        k = z3.Const(fresh_name("rk"), UU)
+        links = z3.StringVal(LINKS_PATH)
+        p = tp.get_term(k)
+        return [
+            ("links-live-two-levels-below-the-links-group", z3.ForAll([k], z3.Implies(tp.has(k), z3.And(PARENT_PATH(PARENT_PATH(p)) == links, PARENT_PATH(p) != links, p != links, N_CHILDREN(PARENT_PATH(p)) >= 1, N_CHILDREN(links) >= 1)))),
+            ("group-sizes-non-negative", z3.ForAll([z3.String("anyp")], N_CHILDREN(z3.String("anyp")) >= 0)),
+        ]
+
+    def raises(self, cx, a):
+        return {"KeyError": z3.Not(a.tp0.has(a.uuid.t))}
+
+    def on_raise(self, cx, a, exc):
+        return [("unknown-uuid-changes-nothing", z3.BoolVal(not cx.fx), "unregistering an unknown UUID changes nothing")]
+
+    def ensures(self, cx, a, res):
+        o = a.self
+        tp = o.fields["_toc_path"]
+        u = a.uuid.t
+        P = a.tp0.get_term(u)
+        SG = PARENT_PATH(P)
+        links = z3.StringVal(LINKS_PATH)
+        last_of_schema = N_CHILDREN(SG) == 1
+        last_schema = N_CHILDREN(links) == 1
+        fx = cx.fx
+        kinds = [e[0] for e in fx]
+        k = z3.Const(fresh_name("uk"), UU)
+        shapes = (["raw-del"], ["raw-del", "raw-del", "schemas-unregister"], ["raw-del", "raw-del", "schemas-unregister", "raw-del"])
+        out = [("protocol", z3.BoolVal(kinds in shapes), "delete the link; if the schema's link group became empty delete it and tell the schema bookkeeping; if the links group became empty delete it")]
+        if kinds not in shapes:
+            return out
+        out.append(("link-deleted", fx[0][1] == P, "exactly the link of this UUID is deleted"))
+        out.append(("uuid-freed", z3.ForAll([k], z3.And(tp.has(k) == z3.And(a.tp0.has(k), k != u), z3.Implies(k != u, tp.get_term(k) == a.tp0.get_term(k)))), "the UUID is free again; all other links untouched"))
+        out.append(("schema-group-removed-iff-last-object", z3.BoolVal(len(kinds) >= 3) == last_of_schema, "the schema's link group is removed exactly when this was the last object of the schema (no empty bookkeeping group, no early clean-up)"))
+        if len(kinds) >= 3:
+            out.append(("schema-unregistered-for-that-group", z3.And(fx[1][1] == SG, fx[2][1].t == REF_FOR_EP(LAST_SEG(SG))), "the schema whose group it was is reported unused (its schema/package records can go)"))
+        out.append(("links-group-removed-iff-no-metadata-left", z3.BoolVal(len(kinds) == 4) == z3.And(last_of_schema, last_schema), "the links group itself is removed exactly when no metadata is left in the container"))
+        if len(kinds) == 4:
+            out.append(("it-is-the-links-group", fx[3][1] == links, "what is removed is the links group"))
+        return out
+
+
+class LinksUpdate(FnSpec):
+    file = "container/interface.py"
+    qual = "TOCLinks.update"
+    props = ("C06",)
+
+    def setup(self, cx):
+        o = links_obj(cx)
+        a = A(self=o, uuid=UuidV(z3.Const("uuid", UU)), new_target=SStr(z3.String("new_target")))
+        a.tp0 = o.fields["_toc_path"].snapshot()
+        return a
+
+    def raises(self, cx, a):
+        return {"KeyError": z3.Not(a.tp0.has(a.uuid.t))}
+
+    def ensures(self, cx, a, res):
+        P = a.tp0.get_term(a.uuid.t)
+        fx = cx.fx
+        ok = [e[0] for e in fx] == ["raw-del", "raw-set"]
+        return [
+            ("link-rewritten-in-place", z3.And(z3.BoolVal(ok), (fx[0][1] == P) if ok else False, (fx[1][1] == P) if ok else False, same_str(fx[1][2], a.new_target.t) if ok else False), "the existing link (same UUID, same place) now holds the new target"),
+            ("link-table-unchanged", a.self.fields["_toc_path"].same(cx, a.tp0), "the UUID keeps resolving to the same link"),
+        ]
+
+
 def add_tocreg(reg):
     reg.set_class_home("TOCPackages", "container/interface.py")
     reg.attr_bindings[("PkgInfo", "plugins")] = lambda cx, o: PluginsStub(o.t)
+    reg.method_bindings[("TocSchemasStub", "_register")] = lambda cx, o, ref: cx.effect("schemas-register", ref)
+    reg.method_bindings[("TocSchemasStub", "_unregister")] = lambda cx, o, ref: cx.effect("schemas-unregister", ref)
+    reg.set_class_home("TOCLinks", "container/interface.py")
     reg.attr_bindings[("PkgInfo", "name")] = lambda cx, o: SStr(INFO_NAME(o.t))
     reg.attr_bindings[("PkgInfo", "version")] = lambda cx, o: VER.wrap(INFO_VER(o.t))
     reg.attr_bindings[("SchemaRef", "name")] = lambda cx, o: SStr(REF_NAME(o.t))
     reg.attr_bindings[("SchemaRef", "version")] = lambda cx, o: VER.wrap(REF_VER(o.t))
-    specs = [AddProviders(), PkgRegister(), PkgUnregister(), SchemaRegister(), SchemaUnregister()]
+    specs = [AddProviders(), PkgRegister(), PkgUnregister(), SchemaRegister(), SchemaUnregister(), LinksRegister(), LinksUnregister(), LinksUpdate()]
     for s in specs:
         reg.add(s)
     return specs
